@@ -22,6 +22,25 @@ func hasCatch(n *model.Node) bool {
 	return f
 }
 
+// catchHasIssuePath: some catching node carries a test (or Required) with an IssuePath option.
+func catchHasIssuePath(n *model.Node) bool {
+	f := false
+	n.Walk(func(x *model.Node) {
+		if x.Catch == nil {
+			return
+		}
+		for _, t := range x.Tests {
+			if t.Opts.Path != "" {
+				f = true
+			}
+		}
+		if x.ReqOpts != nil && x.ReqOpts.Path != "" {
+			f = true
+		}
+	})
+	return f
+}
+
 // stripCatch returns a deep copy of the schema with every Catch removed.
 func stripCatch(n *model.Node) *model.Node {
 	c := *n
@@ -75,7 +94,7 @@ func propC05(reps int) func(model.Case) hh.Verdict {
 			got := res.Norm(false)
 			// (a) direct: no issue at a catching node's path; destination = catch value iff its own pipeline fails
 			for _, is := range got {
-				if catchPaths[is.Path] {
+				if catchPaths[is.Path] && !catchHasIssuePath(c.Root) {
 					return hh.Fail("issue %v reported at the path of a catching node (run %d)", is, r)
 				}
 			}
@@ -91,6 +110,9 @@ func propC05(reps int) func(model.Case) hh.Verdict {
 			}
 			if !model.EqualIss(got, spec.Issues) {
 				return hh.Fail("issues differ from the specification (run %d): got %s want %s", r, fmtIss(got), fmtIss(spec.Issues))
+			}
+			if catchHasIssuePath(c.Root) {
+				continue // the twin's own issues would not sit at the catching node's path
 			}
 			// (b) metamorphic: same schema without Catch, same input. Issues away from the
 			// catching nodes' paths and destinations away from the catching nodes must agree.
@@ -165,6 +187,9 @@ func TestC05(t *testing.T) {
 		}
 		gen := func(rt *rapid.T) model.Case {
 			c := model.GenCase(rt, cfg)
+			if rapid.IntRange(0, 4).Draw(rt, "keepIssuePath") == 0 {
+				return c // tests of catching nodes may redirect their issue with IssuePath: direct oracle only
+			}
 			c.Root.Walk(func(n *model.Node) {
 				if n.Catch != nil {
 					for i := range n.Tests {
